@@ -35,6 +35,8 @@ type World struct {
 
 	NumPackages int // all packages visited by the loader (targets + deps)
 
+	Normalised *NormaliseNote // what the helper normalisation pre-pass did (nil: nothing to do)
+
 	byName map[string]*ssa.Function
 
 	// lazily built indices
@@ -52,11 +54,17 @@ type CallSite struct {
 	Instr  ssa.CallInstruction
 }
 
+var skipNormalise bool
+
 // LoadWorld loads gbn and mailbox from repo's working tree. overlay may replace
 // the content of files (absolute path -> content) without touching the disk.
 func LoadWorld(repo string, overlay map[string][]byte, tags string) (*World, error) {
 	if os.Getenv("GOWORK") != "" && os.Getenv("GOWORK") != "off" {
 		return nil, fmt.Errorf("GOWORK must be unset or off")
+	}
+	var note *NormaliseNote
+	if !skipNormalise {
+		overlay, note = normaliseHelpers(repo, overlay, tags)
 	}
 	cfg := &packages.Config{
 		Mode:    packages.LoadAllSyntax,
@@ -75,7 +83,7 @@ func LoadWorld(repo string, overlay map[string][]byte, tags string) (*World, err
 	if err != nil {
 		return nil, fmt.Errorf("packages.Load: %w", err)
 	}
-	w := &World{Repo: repo, Pkgs: map[string]*packages.Package{}, SSA: map[string]*ssa.Package{}}
+	w := &World{Repo: repo, Pkgs: map[string]*packages.Package{}, SSA: map[string]*ssa.Package{}, Normalised: note}
 	for _, p := range pkgs {
 		switch p.PkgPath {
 		case gbnPath:
